@@ -116,6 +116,74 @@ def expect_of(raw):
     return {12: _bind.BindAck, 15: _bind.AlterContextResponse, 2: _request.Response, 3: _pdu.Fault}[raw[2]]
 
 
+
+def two_connections(ctx):
+    """two connections in one process receiving replies of the SAME length whose segments interleave in time (a thread pool, or
+    asyncio.gather over several unprotect calls): each connection must reassemble its own octets — nothing received on one connection
+    may show up in the PDU returned on the other (sync: B's whole exchange happens between two reads of A; async: same on one loop)"""
+    import dataclasses
+    from dpapi_ng._rpc import _pdu
+    rng = ctx.rng
+    for n in (40, 300, 300, 1000):
+        from dpapi_ng import _rpc as r
+        from dpapi_ng._rpc import _request
+        pa, pb = (_request.Response(header=r.PDUHeader(5, 0, r.PacketType.RESPONSE, r.PacketFlags(3), r.DataRep(), 0, 0, 1), sec_trailer=None, alloc_hint=n, context_id=0,
+                                    cancel_count=0, stub_data=bytes([fill]) * n) for fill in (0x61, 0x62))
+        ra, rb = rpcfmt.finalize(pa), rpcfmt.finalize(pb)
+        if len(ra) != len(rb):
+            continue
+        wantA, wantB = rpcfmt.pdu(_pdu.PDU.unpack(ra)), rpcfmt.pdu(_pdu.PDU.unpack(rb))
+        for cut in (16, 16 + n // 2, 5, len(ra) - 1):
+            inp = {"scenario": "two_connections", "reply_len": len(ra), "first_connection_interrupted_after": cut}
+            # ---- sync: a socket whose second read first lets the OTHER connection run a whole request
+            class Hooked(rpcsim.FakeSocket):
+                def _take(self, k):
+                    if self.recv_calls >= 1 and not getattr(self, "fired", False) and len(self.chunks) == 1:
+                        self.fired = True
+                        sb = rpcsim.FakeSocket(chunks=[rb])
+                        cb = rpcsim.sync_client(sb)
+                        self.other = rpcfmt.pdu(cb._send_pdu(rpcfmt.rand_pdu(__import__("random").Random(2), 0), _expect_response()))
+                    return super()._take(k)
+            sa = Hooked(chunks=[ra[:cut], ra[cut:]])
+            ca = rpcsim.sync_client(sa)
+            try:
+                gotA = rpcfmt.pdu(ca._send_pdu(rpcfmt.rand_pdu(__import__("random").Random(1), 0), _expect_response()))
+                gotB = getattr(sa, "other", None)
+            except Exception as e:  # noqa
+                gotA, gotB = "err " + canon_exc(e), getattr(sa, "other", None)
+            ctx.count("two_connections:sync")
+            if gotA != wantA or (gotB is not None and gotB != wantB):
+                ctx.violation("sync client: octets received on another connection end up in this connection's PDU", inp, str(gotA)[:120], wantA[:120])
+                return
+            # ---- async: two clients on one event loop
+            async def go():
+                xa, xb = asyncio.StreamReader(), asyncio.StreamReader()
+                c1, c2 = rpcsim.async_client(xa, rpcsim.FakeWriter()), rpcsim.async_client(xb, rpcsim.FakeWriter())
+                t1 = asyncio.ensure_future(c1._send_pdu(rpcfmt.rand_pdu(__import__("random").Random(1), 0), _expect_response()))
+                xa.feed_data(ra[:cut])
+                for _ in range(5):
+                    await asyncio.sleep(0)
+                t2 = asyncio.ensure_future(c2._send_pdu(rpcfmt.rand_pdu(__import__("random").Random(2), 0), _expect_response()))
+                xb.feed_data(rb)
+                r2 = await asyncio.wait_for(t2, 2)
+                xa.feed_data(ra[cut:])
+                r1 = await asyncio.wait_for(t1, 2)
+                return rpcfmt.pdu(r1), rpcfmt.pdu(r2)
+            try:
+                g1, g2 = asyncio.run(go())
+            except Exception as e:  # noqa
+                g1, g2 = "err " + canon_exc(e), None
+            ctx.count("two_connections:async")
+            if g1 != wantA or (g2 is not None and g2 != wantB):
+                ctx.violation("async client: octets received on another connection end up in this connection's PDU", inp, str(g1)[:120], wantA[:120])
+                return
+
+
+def _expect_response():
+    from dpapi_ng._rpc import _request
+    return _request.Response
+
+
 def run(ctx):
     prelude.validate(ctx)
     rng = ctx.rng
@@ -169,6 +237,7 @@ def run(ctx):
                         ctx.violation("async client: EOF before a full PDU is not a prompt error", {"eof_at": k}, aout, "error")
     for i in range(0, len(cases), 4000):
         ctx.compare_batch(cases[i:i + 4000], nontrivial=lambda line, impl: "," in line or impl.startswith("err"))
+    two_connections(ctx)
 
 
 def search(ctx, broken, disagreements):
